@@ -289,6 +289,39 @@ def reader_case(ctx, i, rng):
     ctx.fingerprint(("reader", os.path.basename(f)), True)
 
 
+def query_then_edit(ctx, scope, rng, stage, memo={}):
+    """The scope that was asked LAST before a policy change reaches it (stage "ask": one exact query, nothing else is asked
+    until the add), and after the add an edit below it followed at once by exact queries on it (stage "edit"): an index kept per
+    (parent, policy) must not answer from the object that served the last question."""
+    kinds = [(g, ch) for g, ch in (("get_definitions", getattr(scope, "definitions", None)), ("get_ports", getattr(scope, "ports", None)),
+                                   ("get_cables", getattr(scope, "cables", None)), ("get_instances", getattr(scope, "children", None)))
+             if ch is not None and any(c.name for c in ch)]
+    if not kinds:
+        return None
+    if stage == "ask":
+        g, ch = rng.choice(kinds)
+        x = rng.choice([c for c in ch if c.name])
+        got = list(getattr(scope, g)(x.name))
+        ctx.count("exact_queries_right_before_a_policy_change")
+        if not any(y is x for y in got):
+            return "lookup-misses-element", "%s(%r) on the orphan before the add does not return the element" % (g, x.name)
+        return None
+    g, ch = rng.choice(kinds)
+    x = rng.choice([c for c in ch if c.name])
+    old = x.name
+    names = [c.name for c in ch if c.name]
+    try:
+        if rng.random() < 0.5:
+            x.name = "renamed_after_add"
+        else:
+            {"get_definitions": lambda: scope.remove_definition(x), "get_ports": lambda: scope.remove_port(x),
+             "get_cables": lambda: scope.remove_cable(x), "get_instances": lambda: scope.remove_child(x)}[g]()
+    except ValueError:
+        return None
+    ctx.count("edits_right_after_a_policy_change")
+    return lookup_scope(ctx, scope, values=names + ["renamed_after_add"] + [c["EDIF.identifier"] for c in ch if "EDIF.identifier" in c])
+
+
 def cross_policy_case(ctx, i, rng, judge="C10"):
     """A subtree built as an ORPHAN under the DEFAULT policy (where any identifier is accepted) is added to an EDIF-policy
     parent: the add must be refused exactly when the subtree holds an illegal identifier or siblings whose identifiers are
@@ -374,6 +407,13 @@ def cross_policy_case(ctx, i, rng, judge="C10"):
         from ..universe import Universe
         U_ = Universe.of(sub)
         before_ = snapshot.snap(U_, tables=True)
+    asked = None
+    if judge == "C10" and rng.random() < 0.6:
+        asked = rng.choice(defs + [lib]) if what == "library" else sub
+        r = query_then_edit(ctx, asked, rng, "ask")
+        if r:
+            ctx.violation("cross-policy:%s" % r[0], r[1])
+            return
     try:
         (n.add_library if what == "library" else host_lib.add_definition)(sub)
         accepted = True
@@ -399,6 +439,11 @@ def cross_policy_case(ctx, i, rng, judge="C10"):
         ctx.violation("cross-policy-add-false-refusal", "add_%s of a compliant DEFAULT-built orphan was refused under the EDIF policy" % what)
         return
     if accepted:
+        if asked is not None:
+            r = query_then_edit(ctx, asked, rng, "edit")
+            if r:
+                ctx.violation("cross-policy:%s:after-edit-below-retagged-scope" % r[0], r[1])
+                return
         for P in [n] + list(n.libraries) + [d_ for l in n.libraries for d_ in l.definitions]:
             r = scan_scope(ctx, P) or lookup_scope(ctx, P)
             if r:
@@ -452,6 +497,13 @@ def to_default_case(ctx, i, rng, judge="C10"):
     before = snapshot.snap(U, tables=True)
     ctx.count("cross_policy_adds")
     ctx.count("cross_policy_adds_edif_to_default")
+    asked = None
+    if judge == "C10" and rng.random() < 0.6:
+        asked = rng.choice(hosts + ([sub] if what == "library" else []))
+        r = query_then_edit(ctx, asked, rng, "ask")
+        if r:
+            ctx.violation("cross-policy:%s" % r[0], r[1])
+            return
     try:
         (n.add_library if what == "library" else host_lib.add_definition)(sub)
         accepted = True
@@ -478,6 +530,11 @@ def to_default_case(ctx, i, rng, judge="C10"):
                       "same kind shares a name (cables, ports and instances are separate scopes)" % what)
         return
     if accepted:
+        if asked is not None:
+            r = query_then_edit(ctx, asked, rng, "edit")
+            if r:
+                ctx.violation("cross-policy:%s:after-edit-below-retagged-scope" % r[0], r[1])
+                return
         for P in [n] + list(n.libraries) + [d_ for l in n.libraries for d_ in l.definitions]:
             r = scan_scope(ctx, P) or lookup_scope(ctx, P)
             if r:
